@@ -4,6 +4,7 @@ import (
 	"bytes"
 	"fmt"
 	"math/big"
+	"strings"
 	"time"
 
 	"verif/internal/core"
@@ -119,8 +120,11 @@ func c12History(r *core.Run, depth int) {
 					return "error", nil
 				}
 				d, err := x.Data()
-				return fmt.Sprint(d, err == nil), x
-			}, fmt.Sprint(s, true), wire},
+				if err != nil {
+					return "error", x
+				}
+				return d, x // the decoded Go string itself is what the caller keeps
+			}, s, wire},
 		)
 	}
 	scribble := len(ops)
@@ -144,6 +148,19 @@ func c12History(r *core.Run, depth int) {
 							hs[k].b[i] ^= 0xA5
 						}
 						hs[k].gone = hs[k].gone || hs[k].b != nil
+					}
+					// the byte slices are the caller's to overwrite; the Go strings it was handed are immutable
+					// values and must still read what they read when they were returned
+					for hi, h := range hs {
+						if h.s != ops[h.op].want {
+							names := make([]string, len(seq))
+							for i, x := range seq {
+								names[i] = ops[x].name
+							}
+							r.Violate("C12|history|returned-string-changed-when-the-caller-overwrote-its-buffers|"+ops[h.op].name[:strings.IndexByte(ops[h.op].name+"(", '(')], fmt.Sprintf("sequence %v: the string returned by step %d read %q and reads %q after the caller overwrote the byte slices it owns", names, hi, ops[h.op].want, h.s),
+								core.Case{Kind: "sweep", Args: map[string]string{"fn": ops[h.op].name, "input": fmt.Sprint(seq)}})
+							return
+						}
 					}
 					continue
 				}
